@@ -347,6 +347,11 @@ def rule_writeback(ctx: Ctx, prog: Program, want: Tuple[str, ...] = ("R-EVENTS-E
                     returns_incons = bp.outcome == "return" and it.scalar(s, bp.value) == K(PI)
                     if returns_incons or s.facts.decide(cmp_cond("<=", fmin, fmax)) is True:
                         ctx.ok("R-WRITEBACK-MONO", f"{a.mode}:{'+'.join(sorted(stored_bits))}:emptiness-handled")
+                    elif bp.outcome == "return" and not any(x is l.node for x in ast.walk(a.fn.node)) and s.facts.decide(cmp_cond(">", fmin, fmax)) is True:
+                        # the write-back loop lives in a helper that answers its caller with a code of its own once it has established min > max:
+                        # what the caller makes of that code is not followed here
+                        raise AnalysisError(f"{a.fn.name}: the write-back loop was moved into a helper (line {line}) that reports an emptied domain through its own "
+                                            "return value; the emptiness clause of R-WRITEBACK-MONO does not follow that value back into the caller")
                     else:
                         ctx.violation("R-WRITEBACK-MONO", a.fn.path, a.fn.name, "no-emptiness-check", f"{a.fn.path}:{line}",
                                       "after a write-back store the pass continues without testing that the shared domain is "
